@@ -73,7 +73,13 @@ def run_case(case, ctx):
             ctx.fail("expand", f"expand_verified raised {describe_exc(e)}", f"expand/raises/{type(e).__name__}/{describe_exc(e).split(' at ')[-1]}")
             return
         # the expanded specification
-        sub_packs = [U.basic_pack(s.xf, name="sub") for s in pack.ver_strats if isinstance(s, U.PackVer)]
+        sub_packs = []
+        todo_strats = [s for s in pack.ver_strats if isinstance(s, U.PackVer)]
+        while todo_strats:
+            s_ = todo_strats.pop()
+            sub = s_.pack(U.WC("a", "a" * s_.minlen, []))
+            sub_packs.append(sub)
+            todo_strats.extend(x for x in sub.ver_strats if isinstance(x, U.PackVer))
         speccheck.check_counts(ctx, new, start, N, part="expanded-count")
         speccheck.check_structure(ctx, new, start, [pack] + sub_packs, part="expanded-struct")
         # computed here, not through the method under test
@@ -127,6 +133,7 @@ def packver_scenario(draw, tier="quick"):
                 {
                     "minlen": draw(st.sampled_from([1, 1, 2, 2, 3])),
                     "xf": draw(st.sampled_from(["id", "id", "dm", "rename"])),
+                    "nest": draw(st.sampled_from([0, 0, 1, 2])),
                     "ignore_parent": draw(st.booleans()),
                 },
             ]
